@@ -2,11 +2,12 @@
 # usage: tools_seed.sh <worktree> ; confirms a seeded change in its scratch worktree: suite unchanged, demo fails with / passes without
 wt=$1
 cd $wt || exit 2
+git checkout -q -- fakesnow; git apply seed_out/patch.diff || { echo "PATCH DOES NOT APPLY"; exit 3; }
 echo "== suite with change"; /venv/bin/python -m pytest -q -p no:cacheprovider 2>&1 | tail -1
 demo=seed_out/demo.py; [ -f $demo ] || demo=seed_out/demo_test.py
 run() { if [[ $demo == *_test.py ]]; then PYTHONPATH=. /venv/bin/python -m pytest -q -p no:cacheprovider $demo >/dev/null 2>&1; else PYTHONPATH=. /venv/bin/python $demo >/dev/null 2>&1; fi; echo $?; }
 echo "== demo with change (expect non-zero): $(run)"
-git stash -q -- fakesnow
+git apply -R seed_out/patch.diff
 echo "== demo without change (expect 0): $(run)"
-git stash pop -q
+git apply seed_out/patch.diff
 git status --short | head -5
